@@ -148,11 +148,17 @@ var gateGroups = []gateGroup{
 		specs: []gateSpec{
 			{fn: "witness.(*Witness).processAddCheckpointRequest", what: "add-checkpoint processing", effect: effectCalls(true, Callee{pkgWitness, "Witness", "updateCheckpoint"}), min: 3},
 			{fn: "witness.(*Witness).updateCheckpoint", what: "checkpoint update", effect: effectSuccess, min: 2},
+			{fn: "witness.NewWitness", what: "witness construction", effect: effectSuccess, min: 4, tolerated: newWitnessTolerated},
 		}},
 	{prop: "C15", id: "C15.h", rule: "every failing step of the add-entries commit and package processing cuts off the mirror-state update and the success return",
 		specs: []gateSpec{
 			{fn: "witness.(*Witness).processAddEntriesCommit", what: "add-entries commit", effect: effectSuccess, min: 3},
 			{fn: "witness.(*Witness).processAddEntriesPackage", what: "add-entries package", effect: effectSuccess, min: 1},
+			{fn: "witness.(*Witness).processAddEntriesMetadata", what: "add-entries metadata", effect: effectSuccess, min: 2, tolerated: metadataTolerated},
+			{fn: "witness.(*Witness).ensureCutTiles", what: "cut tiles", effect: effectCalls(true, specUpload), min: 4, tolerated: cutTilesTolerated},
+			{fn: "witness.(*Witness).completeTileFromBackend", what: "tile completion", effect: effectSuccess, min: 3},
+			{fn: "witness.(*logState).mirrorCheckpointLocked", what: "mirror checkpoint load", effect: effectSuccess, min: 2},
+			{fn: "witness.fetchAndDecompress", what: "fetch and decompress", effect: effectSuccess, min: 3},
 		}},
 	{prop: "C16", id: "C16.f", rule: "every failing step of the sign-subtree processing cuts off the subtree signature",
 		specs: []gateSpec{
@@ -213,6 +219,30 @@ func sequenceTolerated(f *Func, s Site) string {
 		return "the deduplication cache is written after publication; its failure does not undo the round"
 	}
 	return namesTileBestEffort(f, s)
+}
+
+func cutTilesTolerated(f *Func, s Site) string {
+	if calleeIs(f, s, specFetch) {
+		return "existence probe of the cut hash tile: its presence means the work is already done (C15.e orders the uploads so that this is sound)"
+	}
+	return ""
+}
+
+func metadataTolerated(f *Func, s Site) string {
+	if calleeIs(f, s, Callee{pkgWitness, "Witness", "verifyTicket"}) {
+		return "a ticket that does not verify is ignored, the request is then resolved without it (its use is gated by C15.c)"
+	}
+	return ""
+}
+
+func newWitnessTolerated(f *Func, s Site) string {
+	if calleeIs(f, s, Callee{"crypto/rand", "", "Read"}) {
+		return "crypto/rand.Read is documented never to return an error (it aborts the program instead)"
+	}
+	if calleeIs(f, s, specLockFet) {
+		return "a missing configuration record is the first-start case (ErrLogNotFound), handled by creating it"
+	}
+	return ""
 }
 
 func cleanDirTolerated(f *Func, s Site) string {
